@@ -5,7 +5,7 @@ PID = "C02"
 
 
 def run(rep):
-    H.run_h1(rep, PID, ["MC_C02_quick.cfg"], ["MC_C02_thorough.cfg", "MC_C02_thorough_b.cfg"], [H.context_family],
+    H.run_h1(rep, PID, ["MC_C02_quick.cfg", "MC_C02_expect.cfg"], ["MC_C02_thorough.cfg", "MC_C02_thorough_b.cfg", "MC_C02_expect.cfg"], [H.context_family],
              dict(allow_bad=0.1, one_byte=0.1, budget=0.3, faults=True), n_random=(300, 5000), max_scripts=(1500, 20000))
 
 
